@@ -1394,10 +1394,23 @@ fn run_keyed<K: KeyKind>(case: &Case, out: &mut impl Write) {
             } else {
                 drive(
                     || {
-                        SegmentedCacheBuilder::new(p, q)
-                            .set_probationary_hasher(hasher_of(case))
-                            .set_protected_hasher(hasher_of(case))
-                            .finalize::<K, TV>()
+                        // `ord=1`: the type-changing hasher setters run BEFORE the value setters, `ord=0` after them: a setter
+                        // that rebuilds the builder must carry every field over
+                        (if case.num("ord") == 1 {
+                            SegmentedCacheBuilder::default()
+                                .set_probationary_hasher(hasher_of(case))
+                                .set_protected_hasher(hasher_of(case))
+                                .set_probationary_size(p)
+                                .set_protected_size(q)
+                                .finalize::<K, TV>()
+                        } else {
+                            SegmentedCacheBuilder::default()
+                                .set_probationary_size(p)
+                                .set_protected_size(q)
+                                .set_probationary_hasher(hasher_of(case))
+                                .set_protected_hasher(hasher_of(case))
+                                .finalize::<K, TV>()
+                        })
                             .map(|c| SlruComp { c })
                             .map_err(|e| errname(&format!("{:?}", e)))
                     },
@@ -1444,13 +1457,24 @@ fn run_keyed<K: KeyKind>(case: &Case, out: &mut impl Write) {
             } else {
                 drive(
                     || {
-                        TwoQueueCacheBuilder::new(size)
-                            .set_recent_ratio(rr)
-                            .set_ghost_ratio(gr)
-                            .set_recent_hasher(hasher_of(case))
-                            .set_frequent_hasher(hasher_of(case))
-                            .set_ghost_hasher(hasher_of(case))
-                            .finalize::<K, TV>()
+                        (if case.num("ord") == 1 {
+                            TwoQueueCacheBuilder::default()
+                                .set_recent_hasher(hasher_of(case))
+                                .set_frequent_hasher(hasher_of(case))
+                                .set_ghost_hasher(hasher_of(case))
+                                .set_size(size)
+                                .set_recent_ratio(rr)
+                                .set_ghost_ratio(gr)
+                                .finalize::<K, TV>()
+                        } else {
+                            TwoQueueCacheBuilder::new(size)
+                                .set_recent_ratio(rr)
+                                .set_ghost_ratio(gr)
+                                .set_recent_hasher(hasher_of(case))
+                                .set_frequent_hasher(hasher_of(case))
+                                .set_ghost_hasher(hasher_of(case))
+                                .finalize::<K, TV>()
+                        })
                             .map(|c| TwoQComp { c })
                             .map_err(|e| errname(&format!("{:?}", e)))
                     },
@@ -1480,12 +1504,22 @@ fn run_keyed<K: KeyKind>(case: &Case, out: &mut impl Write) {
             } else {
                 drive(
                     || {
-                        AdaptiveCacheBuilder::new(size)
-                            .set_recent_hasher(hasher_of(case))
-                            .set_frequent_hasher(hasher_of(case))
-                            .set_recent_evict_hasher(hasher_of(case))
-                            .set_frequent_evict_hasher(hasher_of(case))
-                            .finalize::<K, TV>()
+                        (if case.num("ord") == 1 {
+                            AdaptiveCacheBuilder::default()
+                                .set_recent_hasher(hasher_of(case))
+                                .set_frequent_hasher(hasher_of(case))
+                                .set_recent_evict_hasher(hasher_of(case))
+                                .set_frequent_evict_hasher(hasher_of(case))
+                                .set_size(size)
+                                .finalize::<K, TV>()
+                        } else {
+                            AdaptiveCacheBuilder::new(size)
+                                .set_recent_hasher(hasher_of(case))
+                                .set_frequent_hasher(hasher_of(case))
+                                .set_recent_evict_hasher(hasher_of(case))
+                                .set_frequent_evict_hasher(hasher_of(case))
+                                .finalize::<K, TV>()
+                        })
                             .map(|c| ArcComp { c })
                             .map_err(|e| errname(&format!("{:?}", e)))
                     },
@@ -1507,13 +1541,35 @@ fn run_keyed<K: KeyKind>(case: &Case, out: &mut impl Write) {
                 || {
                     let table: HashMap<u64, u64> = case.kh.iter().cloned().collect();
                     let kh = TableKH { table: Rc::new(table) };
-                    WTinyLFUCacheBuilder::<K, TableKH, VH, VH, VH>::with_hashers(kh, h.clone(), h.clone(), h.clone())
-                        .set_window_cache_size(w)
-                        .set_protected_cache_size(q)
-                        .set_probationary_cache_size(p)
-                        .set_samples(samples)
-                        .set_false_positive_ratio(fp)
-                        .finalize::<TV>()
+                    (match case.num("ord") {
+                        // value setters first, then every type-changing hasher setter
+                        1 => WTinyLFUCacheBuilder::<K>::default()
+                            .set_window_cache_size(w)
+                            .set_protected_cache_size(q)
+                            .set_probationary_cache_size(p)
+                            .set_samples(samples)
+                            .set_false_positive_ratio(fp)
+                            .set_key_hasher(kh)
+                            .set_window_hasher(h.clone())
+                            .set_protected_hasher(h.clone())
+                            .set_probationary_hasher(h.clone())
+                            .finalize::<TV>(),
+                        // interleaved
+                        2 => WTinyLFUCacheBuilder::<K>::new(w, q, p, samples)
+                            .set_probationary_hasher(h.clone())
+                            .set_false_positive_ratio(fp)
+                            .set_protected_hasher(h.clone())
+                            .set_window_hasher(h.clone())
+                            .set_key_hasher(kh)
+                            .finalize::<TV>(),
+                        _ => WTinyLFUCacheBuilder::<K, TableKH, VH, VH, VH>::with_hashers(kh, h.clone(), h.clone(), h.clone())
+                            .set_window_cache_size(w)
+                            .set_protected_cache_size(q)
+                            .set_probationary_cache_size(p)
+                            .set_samples(samples)
+                            .set_false_positive_ratio(fp)
+                            .finalize::<TV>(),
+                    })
                         .map(|c| WtComp { c })
                         .map_err(|e| errname(&format!("{:?}", e)))
                 },
